@@ -32,6 +32,7 @@ HD2 == <<S1(4, 1, 1), S1(5, 0, 1)>>
 HD3 == <<S1(3, 1, 2), S1(1, 0, 1)>>
 HD4 == <<S1(2, 0, 2)>>
 MCDataSets == {HD1, HD2, HD3, HD4}
+MCHistDataSets == {HD1, HD2, HD3}   \* data sets of the generated histories
 
 \* --- all small data sets (C12): ids {1,2}, labels {0,1,Missing}, the
 \* first sample with weights {1,2}
@@ -69,7 +70,7 @@ Permute(D, p) ==
       [] p = "unl-first" -> SelectSeq(D, LAMBDA s : ~IsLabeledSample(s)) \o SelectSeq(D, IsLabeledSample)
 
 PairInit ==
-    /\ InitWith("plain", 0, FALSE, FALSE, Fixed1, FALSE)
+    /\ InitWith("plain", 0, FALSE, FALSE, Fixed1, FALSE, <<>>)
     /\ \E n \in 1..GenN : \E f \in [1..n -> LabVals \X WVals] :
          LET D   == AsData(f)
              unl == {i \in DOMAIN D : ~IsLabeledSample(D[i])}
@@ -87,11 +88,11 @@ HistInit == /\ gen = <<>>
             /\ \E k \in Kinds :
                  \E w \in (IF k = "window" THEN WindowSizes ELSE {0}),
                     ol \in (IF k = "window" THEN BOOLEAN ELSE {FALSE}) :
-                       InitWith(k, w, ol, FALSE, Fixed1, FALSE)
+                       InitWith(k, w, ol, FALSE, Fixed1, FALSE, <<>>)
 
 HistStep == \/ \E D \in DataSets : Fit(D) \/ PartialFit(D) \/ Query(D)
             \/ Predict \/ Update
-            \/ (GenSetParams /\ SetParams(Fixed2, FALSE))
+            \/ (GenSetParams /\ SetParams(Fixed2, FALSE, <<>>))
 
 HistNext == /\ HistStep
             /\ gen' = Append(gen, [op |-> last'.op, d |-> last'.d,
